@@ -70,7 +70,7 @@ _ROOT = [None]
 
 def _root():
     if _ROOT[0] is None:
-        _ROOT[0] = tempfile.mkdtemp(prefix='verif-c14-', dir='/tmp')
+        _ROOT[0] = tempfile.mkdtemp(prefix='verif-c14-')
         atexit.register(shutil.rmtree, _ROOT[0], True)
     return _ROOT[0]
 
